@@ -748,16 +748,23 @@ def process_dupinto(cx, schemas, cases, tag, rng, per_pair):
         d = tg.hx(c.s.dsl())
         snodes, spar = flat(tg.untok(c.s, c.src))
         tops = tg.untok(c.s, c.t)
-        cand = [(ni, n) for ni, (n, _) in enumerate(snodes) if spar[id(n)] is not None and spar[id(spar[id(n)])] is None and n.sn.kind != "key"]
+        def top_of(n):
+            d = 0
+            while spar[id(n)] is not None:
+                n = spar[id(n)]; d += 1
+            return n, d
+        cand = [(ni, n) for ni, (n, _) in enumerate(snodes) if spar[id(n)] is not None and n.sn.kind != "key"]
         for j in range(per_pair):
             if not cand:
                 break
-            ni, n = rng.choice(cand)
-            psn = spar[id(n)].sn
-            pis = [pi for pi, t in enumerate(tops) if t.sn is psn]
+            deep = [x for x in cand if top_of(x[1])[1] > 1]
+            ni, n = rng.choice(deep) if deep and rng.random() < 0.4 else rng.choice(cand)
+            top, depth = top_of(n)
+            pis = [pi for pi, t in enumerate(tops) if t.sn is top.sn]
             if not pis:
                 continue
-            o = rng.choice([x for x in DUP_OPTS if not x & D_WITH_PARENTS])
+            # deeper nodes need LYD_DUP_WITH_PARENTS (the parents in between are copied and the chain is connected to the parent)
+            o = rng.choice([x for x in DUP_OPTS if (x & D_WITH_PARENTS) or depth == 1])
             mode = rng.randrange(4)
             i = "p%s%d.%d" % (tag, k, j)
             lines.append("%s %s dupinto %s %s %d %d %d %s %d" % (i, COMP, d, c.src, ni, o, mode, c.t, rng.choice(pis)))
@@ -771,7 +778,7 @@ def process_dupinto(cx, schemas, cases, tag, rng, per_pair):
         a, b = ri.get(i, ["err", "NoReply"]), rm.get(i, ["err", "NoReply"])
         if a[:2] == ["err", "NotRun"]:
             continue
-        cx.count(("dupinto", c.s.name, c.src, c.t, ni, o, mode), a[0] == "ok", "merge:dupinto:mode%d:%s:%s" % (mode, "populated" if nk else "empty", a[0] if a[0] == "ok" else a[1]))
+        cx.count(("dupinto", c.s.name, c.src, c.t, ni, o, mode), a[0] == "ok", "merge:dupinto:mode%d:%s:%s:%s" % (mode, "populated" if nk else "empty", "with-parents" if o & D_WITH_PARENTS else "plain", a[0] if a[0] == "ok" else a[1]))
         if i in crash_ids:
             cx.fail(COMP, "harness aborted in lyd_dup into a parent (%s)" % sanitizer_line(crash_ids[i].get("stderr", "")),
                     dup_payload(c, "dupinto", "crash", "crash", ni, o, mode, None, [], crash_ids[i].get("stderr", "")))
